@@ -1,15 +1,23 @@
 #!/usr/bin/env python3
-"""Regenerate lean/DadiVerif.lean (root import list) from the files present."""
-import os
-L = os.path.join(os.path.dirname(os.path.dirname(os.path.abspath(__file__))), 'lean')
+"""Regenerate lean/DadiVerif.lean (root import list): Props + Driver modules of the properties claimed in
+MANIFEST.json (work-in-progress files of unclaimed properties are left out so that setup stays green)."""
+import os, re, json
+V = os.path.dirname(os.path.dirname(os.path.abspath(__file__)))
+L = os.path.join(V, 'lean')
+m = json.load(open(os.path.join(V, 'MANIFEST.json')))
 mods = []
-for sub in ['Model', 'Generated', 'Lemmas', 'Props', 'Driver']:
-    d = os.path.join(L, 'DadiVerif', sub)
-    if os.path.isdir(d):
-        for f in sorted(os.listdir(d)):
-            if f.endswith('.lean'):
-                mods.append('DadiVerif.%s.%s' % (sub, f[:-5]))
-text = ''.join('import %s\n' % m for m in mods)
+for c in m['checks']:
+    pid = c['property_id']
+    if os.path.exists(os.path.join(L, 'DadiVerif', 'Props', pid + '.lean')):
+        mods.append('DadiVerif.Props.' + pid)
+    h = os.path.join(V, 'harness', pid.lower() + '.py')
+    if os.path.exists(h):
+        src = open(h).read()
+        mm = re.search(r'^DRIVER_MODULES\s*=\s*\[(.*?)\]', src, flags=re.M | re.S)
+        for d in re.findall(r"['\"](\w+)['\"]", mm.group(1)) if mm else []:
+            if 'DadiVerif.Driver.' + d not in mods:
+                mods.append('DadiVerif.Driver.' + d)
+text = ''.join('import %s\n' % x for x in mods)
 p = os.path.join(L, 'DadiVerif.lean')
 if not os.path.exists(p) or open(p).read() != text:
     open(p, 'w').write(text)
